@@ -125,6 +125,11 @@ class Report(object):
         self.known_hits.append(e)
       e.setdefault("_count", 0)
       e["_count"] += 1
+      dump = os.environ.get("VERIF_DUMP_KNOWN")   # debugging aid: keep the first matched record
+      if dump and e["_count"] == 1:
+        os.makedirs(dump, exist_ok=True)
+        with open(os.path.join(dump, "%s.json" % e["id"]), "w") as f:
+          json.dump(_jsonable(record), f, indent=1, default=repr)
       return False
     path = write_replay(self.prop, name, record)
     self.violations.append((name, path, has_input))
